@@ -910,6 +910,7 @@ def _requires_every(fa, sources):
 
     # loops in which an invalid element forces the answer False
     strict_heads = []
+    strict_loops = []
     for lp in fa.stmts(ast.For):
         heads = [h for h in fa.cfg.nodes_of(lp) if h in fa.cfg.reachable_nodes()]
         if not heads:
@@ -924,7 +925,9 @@ def _requires_every(fa, sources):
                 return False
             return None
         asm = Assume(fa, atom)
-        hit = any(n.kind == "test" and fa.inside(n.ast, lp) and asm.truth(n.ast, n.id) is not None for n in fa.cfg.nodes if n.ast is not None)
+        hit = any(n.kind == "test" and fa.inside(n.ast, lp) and asm.truth(n.ast, n.id) is not None for n in fa.cfg.nodes if n.ast is not None) or \
+            any(n.kind == "stmt" and isinstance(n.ast, (ast.Assign, ast.AugAssign)) and fa.inside(n.ast, lp) and asm.truth(n.ast.value, n.id) is not None
+                for n in fa.cfg.nodes if n.ast is not None)
         if not hit:
             continue
         ok = True
@@ -933,8 +936,52 @@ def _requires_every(fa, sources):
             # this iteration and whatever follows the loop, without entering the loop head again
             IN = asm.flow({st_: set(fa.df.IN[st_]) for st_ in starts}, removed={h})
             region = set(IN)
-            if any(d == h and asm.edge_ok(n_, d, l) for n_ in region for (d, l) in fa.cfg.succ[n_]):
-                ok = False          # the next element is looked at: this one did not decide
+            back = [n_ for n_ in region if any(d == h and asm.edge_ok(n_, d, l) for (d, l) in fa.cfg.succ[n_])]
+            if back:
+                # the next element is looked at.  That is still a decision if this element left a flag False that no
+                # later element can raise again (every assignment to it in the loop is `flag and ...` or False): what
+                # follows the loop is then judged with the flag as this iteration left it
+                seed = set()
+                for n_ in back:
+                    gen = fa.df.gen.get(n_, [])
+                    killed = {d.name for d in gen if d.kind != "aug"}
+                    seed |= {d for d in IN[n_] if d.name not in killed} | set(gen)
+                lowered = {d.name for d in seed if d.kind in ("assign", "aug") and d.value is not None and d.node in region
+                           and fa.inside(d.stmt if d.stmt is not None else d.value, lp) and asm.truth(d.value, d.node) is False
+                           and (d.kind == "assign" or isinstance(getattr(d.stmt, "op", None), ast.BitAnd))}
+
+                def monotone(name):
+                    for st_ in fa.stmts((ast.Assign, ast.AugAssign, ast.AnnAssign)):
+                        if not fa.inside(st_, lp):
+                            continue
+                        tg = st_.targets if isinstance(st_, ast.Assign) else [st_.target]
+                        if not any(isinstance(t, ast.Name) and t.id == name for t in tg):
+                            continue
+                        v = st_.value
+                        if isinstance(st_, ast.AugAssign):
+                            if not isinstance(st_.op, ast.BitAnd):
+                                return False
+                            continue
+                        if is_false(v):
+                            continue
+                        if isinstance(v, ast.BoolOp) and isinstance(v.op, ast.And) and any(isinstance(x, ast.Name) and x.id == name for x in v.values):
+                            continue
+                        return False
+                    return True
+                sticky = {nm for nm in lowered if monotone(nm)}
+                if not sticky:
+                    ok = False
+                else:
+                    seed = {d for d in seed if d.name not in sticky or (d.kind in ("assign", "aug") and d.node in region and asm.truth(d.value, d.node) is False)}
+                    after = asm.flow({h: seed}, removed=set(starts))
+                    for i in after:
+                        nd = fa.cfg.node(i)
+                        if nd.kind == "stmt" and isinstance(nd.ast, ast.Return):
+                            leaves = asm.cases(nd.ast.value, i, after) if nd.ast.value is not None else []
+                            if not leaves or not all(is_false(x) or asm.truth(x, m) is False or (isinstance(x, ast.Name) and x.id in sticky and
+                                                                                                  all(d.name != x.id or d in seed for d in after.get(m, ())))
+                                                     for (x, m) in leaves):
+                                ok = False
             for i in region:
                 nd = fa.cfg.node(i)
                 if nd.kind == "stmt" and isinstance(nd.ast, ast.Return):
@@ -943,6 +990,7 @@ def _requires_every(fa, sources):
                         ok = False
         if ok:
             strict_heads += heads
+            strict_loops.append(lp)
     seen_source = False
     for r in fa.returns():
         for i in fa.nodes(r):
@@ -960,9 +1008,20 @@ def _requires_every(fa, sources):
                         and from_src(neg_in.comparators[0], n):
                     seen_source = True
                     continue
-                if isinstance(leaf, ast.Constant) and leaf.value is True and strict_heads and fa.cfg.must_pass(strict_heads, i):
-                    seen_source = True
-                    continue
+                if strict_heads and fa.cfg.must_pass(strict_heads, i) and leaf is not None:
+                    # after a loop in which an invalid element forces False: the initial True, or the flag as the loop left it
+                    in_strict = lambda x: x is not None and any(fa.inside(x, lp_) for lp_ in strict_loops)
+                    if isinstance(leaf, ast.Constant) and leaf.value is True:
+                        seen_source = True
+                        continue
+                    if in_strict(fa.cfg.node(n).ast) and not fa.inside(r, fa.enclosing(fa.cfg.node(n).ast, ast.For) or r):
+                        seen_source = True
+                        continue
+                    if isinstance(leaf, ast.Name):
+                        ds = fa.df.reaching(n, leaf.id)
+                        if ds and all(d.kind in ("assign", "aug") and (in_strict(d.stmt) or (isinstance(d.value, ast.Constant) and d.value.value is True)) for d in ds):
+                            seen_source = True
+                            continue
                 weak = leaf is None or not from_src(leaf, n) or isinstance(leaf, (ast.Constant, ast.Subscript, ast.BoolOp)) or (
                     isinstance(leaf, ast.Call) and isinstance(leaf.func, ast.Name) and leaf.func.id in ("any", "bool", "len")) or (
                     isinstance(leaf, ast.Compare) and isinstance(leaf.ops[0], ast.In))
